@@ -942,3 +942,92 @@ impl RuntimeStackTrait<Val> for RuntimeStack {
         }
     }
 }
+
+/// Read-only probe of the interpreter state for the verification harness.
+#[cfg(basic_lang_verif)]
+#[derive(Debug, Clone)]
+pub struct VerifProbe {
+    pub state: &'static str,
+    pub cont: &'static str,
+    pub pc: Address,
+    pub cont_pc: Address,
+    pub entry_address: Address,
+    pub dirty: bool,
+    pub tron: bool,
+    pub print_col: usize,
+    pub line_pc: LineNumber,
+    pub line_prev: LineNumber,
+    pub line_cont: LineNumber,
+    pub stack: Vec<(Val, LineNumber)>,
+    pub data_pos: Address,
+    pub data_len: usize,
+    pub code_len: usize,
+    pub indirect_errors: usize,
+    pub direct_errors: usize,
+    pub functions: Vec<(String, usize)>,
+    pub vars: Vec<(String, Val)>,
+    pub dims: Vec<(String, Vec<i16>)>,
+    pub types: [u8; 26],
+}
+
+#[cfg(basic_lang_verif)]
+impl Runtime {
+    pub fn verif_probe(&self) -> VerifProbe {
+        fn name(state: &State) -> &'static str {
+            match state {
+                State::Intro => "Intro",
+                State::Stopped => "Stopped",
+                State::Listing(_) => "Listing",
+                State::RuntimeError(_) => "RuntimeError",
+                State::Running => "Running",
+                State::Input => "Input",
+                State::InputRedo => "InputRedo",
+                State::InputRunning => "InputRunning",
+                State::Interrupt => "Interrupt",
+                State::Inkey => "Inkey",
+            }
+        }
+        let mut stack = vec![];
+        let mut index = 0;
+        while let Some(val) = self.stack.get(index) {
+            let line = match val {
+                Val::Return(addr) | Val::Next(addr) => {
+                    self.program.line_number_for(addr.saturating_sub(1))
+                }
+                _ => None,
+            };
+            stack.push((val.clone(), line));
+            index += 1;
+        }
+        let mut functions: Vec<(String, usize)> = self
+            .functions
+            .iter()
+            .map(|(k, (arity, _))| (k.to_string(), *arity))
+            .collect();
+        functions.sort();
+        let (vars, dims, types) = self.vars.verif_dump();
+        VerifProbe {
+            state: name(&self.state),
+            cont: name(&self.cont),
+            pc: self.pc,
+            cont_pc: self.cont_pc,
+            entry_address: self.entry_address,
+            dirty: self.dirty,
+            tron: self.tron,
+            print_col: self.print_col,
+            line_pc: self.program.line_number_for(self.pc),
+            line_prev: self.program.line_number_for(self.pc.saturating_sub(1)),
+            line_cont: self.program.line_number_for(self.cont_pc),
+            stack,
+            data_pos: self.program.verif_data_pos(),
+            data_len: self.program.verif_data_len(),
+            code_len: self.program.verif_code_len(),
+            indirect_errors: self.listing.indirect_errors.len(),
+            direct_errors: self.listing.direct_errors.len(),
+            functions,
+            vars,
+            dims,
+            types,
+        }
+    }
+}
